@@ -29,6 +29,15 @@ ENTRY_EXCLUSIONS = [
 BUILDER_PAT = re.compile(r'Creator|::creator::|::maccommandcreator::|::default_crypto::|JoinAccept::build|DataFrame::build|JoinRequest::build|maccommands::mac_commands_len')
 
 
+# reviewed exceptions: (function, obligation kind, description) -> reason. One symbol each, never a line number.
+EXCEPTIONS = {
+    ('lorawan::default_crypto::calculate_mic', 'slice', 'range index'):
+        'CMAC tag is hybrid_array::Array<u8, BlockSize> with the block size a type-level constant of the external cipher (16 for AES-128): [0..4] is in range',
+    ('lorawan::default_crypto::calculate_mic', 'unwrap', 'Result::unwrap'):
+        'a 4-byte sub-slice always converts to [u8; 4]',
+}
+
+
 def scalar_param_syms(syms):
     """symbols that are scalar parameters of the entry function (p<k>_<name> without a projection)"""
     return [s for s in syms if re.match(r'^p\d+_[A-Za-z0-9_]+$', s)]
@@ -70,12 +79,16 @@ def run(tier):
     obl = an.finalize_obligations()
     # scope by *entry*: a site is judged in the contexts reached from parse-side entry points
     in_scope = []
+    excepted = []
     precond_sites = []
     n_ok = 0
     assumptions = {}
     for o in sorted(obl, key=lambda o: o.key()):
         bad = {e: d for e, d in o.bad_entries.items() if not BUILDER_PAT.search(e)}
         if BUILDER_PAT.search(o.fn) and not bad:
+            continue
+        if (o.fn, o.kind, o.desc) in EXCEPTIONS and bad:
+            excepted.append({'site': o.key(), 'reason': EXCEPTIONS[(o.fn, o.kind, o.desc)]})
             continue
         in_scope.append(o)
         if not bad:
@@ -111,6 +124,7 @@ def run(tier):
     res.coverage.update({
         'obligations': n_obl, 'discharged': n_ok,
         'sites_depending_only_on_caller_chosen_arguments': len(precond_sites),
+        'reviewed_exceptions': excepted,
         'obligations_total_incl_builders': len(obl),
         'entries_analysed': len(ents), 'entries_excluded': excluded,
         'passes': log,
